@@ -131,6 +131,12 @@ def random_general(seed, n, base_id, k=3, sigma=(A, B, C, 120), nsets=(1, 2, 2, 
                     else:
                         vn = "v%d" % len(env)
                         scope = g.rnd.choice([-1, si])
+                        if usable and g.rnd.random() < 0.35:
+                            # a variable defined in terms of an earlier one (resolved when used)
+                            u = g.rnd.choice(usable)
+                            if u[2] != -1:
+                                scope = si
+                            re = g.rnd.choice([alt(var(u[0]), re), cat(var(u[0]), re), cat(re, var(u[0]))])
                         env.append((vn, re, scope))
                     re = g.rnd.choice([var(vn), cat(var(vn), g.atom()), plus(var(vn)), cat(g.atom(), var(vn)),
                                        cat(var(vn), cat(g.atom(), var(vn)))])
